@@ -104,7 +104,54 @@ slice_1d_pos = Contract(
          "FIRST[j] is the least position START + k*step at or after the chunk start, so the chunk holds a selected position iff FIRST[j] lies in it and before STOP",
 )
 
-CONTRACTS = [normalize_slice, slice_1d_pos]
+# ---- negative step: the same fragment with step <= -1 (the `else` block).  Positions are global until the entry is
+# written relative to the END of its chunk.  LASTC[j] = the greatest selected candidate START + k*step below the end of chunk j.
+_CS = _B  # chunk start
+_NENTRY = (f"d[j].start is not None and d[j].stop is not None and d[j].step is not None and d[j].step == step and d[j].start == LASTC[j] - chunk_boundaries[j]"
+           f" and d[j].stop == ({_CS('j')} - chunk_boundaries[j] - 1 if {_CS('j')} - chunk_boundaries[j] - 1 > STOP - chunk_boundaries[j] else STOP - chunk_boundaries[j])")
+_NVISITED = ("forall(lambda j: implies({lo} < j and j <= istart, "
+             "implies(LASTC[j] > STOP, LASTC[j] == START + step * M[j] and M[j] >= 0 and LASTC[j] < chunk_boundaries[j] and (LASTC[j] - step >= chunk_boundaries[j] or M[j] == 0))"
+             f" and (j in d.keys()) == (LASTC[j] > STOP and {_CS('j')} <= LASTC[j])"
+             f" and implies(j in d.keys(), {_NENTRY})), Int)")
+
+slice_1d_neg = Contract(
+    MODULE, "_slice_1d[negative step]", source="_slice_1d",
+    fragment=slice1d_positive,
+    params={"dim_shape": T.Int, "lengths": SI, "index": T.Slice, "chunk_boundaries": SI},
+    locals={"step": T.Int, "start": T.Int, "stop": T.Int, "rstart": T.Int, "d": T.Map(T.Int, T.Slice), "istart": T.Int, "istop": T.Int,
+            "chunk_start": T.Int, "chunk_stop": T.Int, "offset": T.Int,
+            "START": T.Int, "STOP": T.Int, "MM": T.Int, "R_": T.Int, "TOOK": T.Bool, "LASTC": T.Map(T.Int, T.Int), "M": T.Map(T.Int, T.Int)},
+    returns=T.Map(T.Int, T.Slice),
+    requires=[
+        ("chunks", "len(lengths) >= 1 and all(lengths[q] >= 0 for q in range(len(lengths))) and dim_shape >= 1"),
+        ("boundaries are the running sums of the chunk lengths (cached_cumsum: ASSUMED)",
+         "len(chunk_boundaries) == len(lengths) and chunk_boundaries[0] == lengths[0] and all(chunk_boundaries[q] == chunk_boundaries[q - 1] + lengths[q] for q in range(1, len(lengths)))"
+         " and forall(lambda a, b: implies(0 <= a and a <= b and b < len(lengths), chunk_boundaries[a] <= chunk_boundaries[b])) and chunk_boundaries[len(lengths) - 1] == dim_shape"),
+        ("negative-step", "index.step is not None and index.step <= 0 - 1"),
+        ("normalised-bounds", "(index.start is None or 0 - dim_shape <= index.start) and (index.stop is None or (0 - dim_shape <= index.stop and index.stop <= dim_shape))"),
+    ],
+    ensures=[
+        ("C20-only-chunks-that-hold-a-selected-position-get-an-entry, with exactly the local slice", _NVISITED.format(lo="istop").replace("d[j]", "result[j]").replace("d.keys()", "result.keys()")),
+        ("C20-no-entry-outside-the-visited-range", "forall(lambda j: implies(j in result.keys(), istop < j and j <= istart), Int)"),
+        ("C20-chunks-above-the-range-begin-above-START", f"forall(lambda j: implies(istart < j and j < len(lengths), {_CS('j')} > START), Int)"),
+        ("C20-chunks-below-the-range-end-at-or-below-STOP", "forall(lambda j: implies(0 <= j and j <= istop, chunk_boundaries[j] - 1 <= STOP), Int)"),
+        ("range", "0 - 1 <= istop and istart <= len(lengths) - 1 and 0 - 1 <= START and START <= dim_shape - 1 and 0 - 1 <= STOP and STOP <= dim_shape"),
+    ],
+    loops={1: dict(index="i0", invariant=[
+        ("rstart-is-the-next-selected-position", "implies(rstart > STOP, rstart == START + step * MM and MM >= 0 and (i0 < 0 or rstart < chunk_boundaries[i0]) and (MM == 0 or i0 < 0 or rstart - step >= chunk_boundaries[i0]))"),
+        ("visited", _NVISITED.format(lo="i0")),
+        ("no-entry-outside", "forall(lambda j: implies(j in d.keys(), i0 < j and j <= istart), Int)"),
+        ("facts", "step <= 0 - 1 and 0 - 1 <= istop and (istop <= i0 or istart <= istop) and i0 <= istart and istart <= len(lengths) - 1 and 0 - 1 <= START and START <= dim_shape - 1 and 0 - 1 <= STOP and STOP <= dim_shape and stop == STOP"),
+    ])},
+    ghost=[
+        ("before", "d = dict()", "START = start\nSTOP = stop\nMM = 0\nLASTC = {}\nM = {}"),
+        ("after", "chunk_stop = chunk_boundaries[i]", "R_ = rstart\nLASTC[i] = rstart\nM[i] = MM"),
+        ("after", "rstart = chunk_start + offset", "lemma_divmod_negdiv(R_ - (chunk_start - 1), step)\nMM = MM - (R_ - (chunk_start - 1)) // step"),
+    ],
+    note="per-chunk characterisation for negative steps (the block repaired by fix 21a8b40); same paper argument as for positive steps, mirrored",
+)
+
+CONTRACTS = [normalize_slice, slice_1d_pos, slice_1d_neg]
 
 
 def setup(eng):
